@@ -28,6 +28,8 @@ META = {
             "stream EOF} (thorough: all five) with the loss and the system's whole reaction landing while the caller "
             "stands at its k-th point, k = 1..(number of points of the call), a point being every source line of "
             "channel.py and of the blocking Transport/AuthHandler APIs and every synchronisation operation; "
+            "plus the channel calls on a channel that is already half-closed (shutdown_read / shutdown_write / "
+            "shutdown(2) by this side, EOF from the peer) x loss x timing before/after; "
             "plus every API x local close while the victim's transport thread is "
             "busy inside an application callback (x11 handler on the client, check_channel_exec_request on the "
             "server; timing before [quick] / racing / after). The call must return or raise within 3 virtual seconds of the loss (or "
@@ -66,6 +68,7 @@ def make_body(scn):
     api, loss, timing, ctimeout = scn[:4]
     ncall = scn[4] if len(scn) > 4 else 1
     busy = scn[5] if len(scn) > 5 else False
+    pre = scn[6] if len(scn) > 6 else None          # half-closed state of the channel before the call
 
     def body(s):
         handshake_only = api in ("auth_password", "start_client", "auth_password_srt")
@@ -99,6 +102,17 @@ def make_body(scn):
                     pass
                 s.quiesce()
                 chan.settimeout(ctimeout)
+        if pre and chan is not None:
+            # the channel is half-closed already (by this side or by the peer) when the blocking call is made
+            if pre == "shutdown_read":
+                chan.shutdown_read()
+            elif pre == "shutdown_write":
+                chan.shutdown_write()
+            elif pre == "shutdown2":
+                chan.shutdown(2)
+            elif pre == "peer_eof":
+                schan.shutdown_write()
+            s.quiesce()
         vt, vsock, peer_t = (p.ts, p.ss, p.tc) if victim_of(api) == "s" else (p.tc, p.sc, p.ts)
         in_pipe = p.c2s if victim_of(api) == "s" else p.s2c      # pipe that carries data to the victim
         # replies are withheld by gating the wire towards the victim
@@ -338,6 +352,16 @@ def scenarios(tier):
                        "accept_none", "open_session"):
                 for timing in (("before",) if tier == "quick" else ("before", "racing")):
                     out.append((api, loss, timing, None, 2))
+        # the channel is already half-closed when the call blocks (only calls that still make sense then)
+        if api in ("recv", "recv_stderr", "recv_exit_status", "send_zero_window", "sendall_zero_window"):
+            for pre in ("shutdown_read", "shutdown_write", "shutdown2", "peer_eof"):
+                if api.endswith("zero_window") and pre in ("shutdown_write", "shutdown2"):
+                    continue        # sending after shutting the write side down fails at once by design
+                if api in ("recv", "recv_stderr") and pre == "peer_eof":
+                    continue        # reading after the peer's EOF returns b"" at once by design
+                for loss in (("peer_close", "local_close") if tier == "quick" else LOSSES):
+                    for timing in ("before", "after"):
+                        out.append((api, loss, timing, None, 1, False, pre))
         # the victim's transport thread is busy in an application callback: only a local close() can end the
         # connection meanwhile (every other loss is noticed by that thread)
         if api not in ("start_client", "auth_password", "auth_password_srt"):
@@ -363,7 +387,8 @@ def run_items(items, acc):
             if v is not None:
                 acc.violation("%s:%s:%s:%s%s%s" % (v[0], scn[0], scn[1], "after-loss" if scn[2] == "after" else "blocked-or-racing",
                                                    ":two-callers" if len(scn) > 4 and scn[4] > 1 else "",
-                                                   ":transport-thread-busy-in-callback" if len(scn) > 5 and scn[5] else ""),
+                                                   (":transport-thread-busy-in-callback" if len(scn) > 5 and scn[5] else "")
+                                                   + (":channel-half-closed-before(%s)" % scn[6] if len(scn) > 6 and scn[6] else "")),
                               {"scn": scn, "why": v[1], "choices": ex.choices,
                                "observed": ex.value if ex.outcome == "ok" else None},
                               {"scn": scn, "choices": ex.choices, "bound": bound})
@@ -374,7 +399,7 @@ def run_items(items, acc):
         if res.capped:
             acc.note("cap 1500 hit %r" % (scn,))
         if len(acc.samples) < 3 and seen:
-            acc.sample({"scenario": dict(zip(("api", "loss", "timing", "channel_timeout", "callers", "transport_thread_busy"), scn)),
+            acc.sample({"scenario": dict(zip(("api", "loss", "timing", "channel_timeout", "callers", "transport_thread_busy", "channel_half_closed_before"), scn)),
                         "schedules": res.executions, "outcomes(kind,exception,was_blocked)": sorted(map(list, seen), key=repr)})
 
 
